@@ -226,6 +226,27 @@ struct Outcome {
 }
 
 fn run(n: usize, keys: &[String], hist: &[&str], op: &str) -> Outcome {
+    let mut out = run_inner(n, keys, hist, op, false);
+    // Cause classification for the fast read paths: if the only reason for a different reply is that the
+    // N-shard server's home shard of the key has not yet been told the current time (the fast paths carry
+    // no clock reading, so a shard learns the time only from generic commands routed to it), the same
+    // scenario with a clock refresh of every shard right before the op (DBSIZE fans out with the current
+    // time) has equal replies. That cause gets its own signature.
+    if let Some((sig, detail)) = &out.violation {
+        if sig.starts_with("reply ") && matches!(op.split(' ').next().unwrap(), "FG" | "PG" | "BG") {
+            let again = run_inner(n, keys, hist, op, true);
+            if again.violation.is_none() {
+                out.violation = Some((
+                    { let _ = sig; "reply fast-read-path stale-shard-clock".to_string() },
+                    format!("{detail} -- with every shard's clock refreshed right before the op (DBSIZE) the replies agree: the fast path served a key whose deadline had passed because its home shard had not seen a timed command since the clock advanced"),
+                ));
+            }
+        }
+    }
+    out
+}
+
+fn run_inner(n: usize, keys: &[String], hist: &[&str], op: &str, refresh: bool) -> Outcome {
     polex::with_runtime(|rt| {
         rt.block_on(async {
             let c1 = VerifTime::new(T0);
@@ -247,6 +268,9 @@ fn run(n: usize, keys: &[String], hist: &[&str], op: &str) -> Outcome {
                 let ms: u64 = String::from_utf8_lossy(&a[1]).parse().unwrap();
                 c1.advance(ms);
                 cn.advance(ms);
+            }
+            if refresh {
+                let _ = many.exec(&resp::line("DBSIZE")).await;
             }
             let o1 = apply(&mut one, &c1, &a).await;
             let on = apply(&mut many, &cn, &a).await;
